@@ -138,6 +138,11 @@ def bounded_then_cancel(ctx, rep, rule, rule_truth):
         want = not e.data['shut_tidied']
         v = e.data['val']
         ok = v == T.mk(('const', want))
+        if not ok:
+            # not a literal: the value the path conditions give to the returned expression
+            # (`success = len(pending) == 0; ...; return success`)
+            from ..flow import truth
+            ok = truth(v, e.st) is want
         rep.check(ok, rule_truth, "%s result tells whether handlers were cancelled" % e.where, fn,
                   "`%s` on a path where %s" % (src(stmt_of(e.node)),
                                                "stragglers were cancelled" if e.data['shut_tidied']
